@@ -86,7 +86,9 @@ def case_closed(rng, tier):
             mats = [m2 if pick[min(i, nst - 1 - i)] else mat for i in range(nst)]
     c = Case({'part': 'closed_form', 'a': a, 'b': b, 'stack': stack, 'plyts': plyts, 'laminaprops': [list(x) for x in mats], 'kappa': kappa, 'mu': mu,
               'package_solvers': use_pkg, 'sparse': sparse})
-    c.tag('part:closed_form', 'solver:package' if use_pkg else 'solver:reference', 'lam:perply' if perply else 'lam:uniform')
+    force_ortho = bool(rng.random() < 0.3)
+    c.desc['force_orthotropic_laminate'] = force_ortho
+    c.tag('part:closed_form', 'solver:package' if use_pkg else 'solver:reference', 'lam:perply' if perply else 'lam:uniform', 'force_ortho:' + ('on' if force_ortho else 'off'))
     F, _ = clt.ABD6(stack, plyts, mats, 0.)
     D = F[3:, 3:]
     h = float(sum(plyts))
@@ -103,6 +105,8 @@ def case_closed(rng, tier):
             p.plyts = list(plyts); p.laminaprops = [tuple(x) for x in mats]
         else:
             p = Panel(a=a, b=b, m=mn, n=mn, stack=stack, plyt=t, laminaprop=tuple(mat), mu=mu)
+        if force_ortho:
+            p.force_orthotropic_laminate = True      # a no-op for these laminates (B = D16 = D26 = 0 already)
         p.Nxx = -N0; p.Nyy = -kappa * N0
         K = p.calc_k0(silent=True).toarray()
         G = p.calc_kG0(silent=True).toarray()
